@@ -32,7 +32,17 @@ fn descs() -> Vec<FnDesc> {
         FnDesc { name: "a_rather_long_function_name_for_a_cacheable_lookup_a", cacheable: true, kind: Kind::Tag, suspend: 0 },
         FnDesc { name: "a_rather_long_function_name_for_a_cacheable_lookup_b", cacheable: true, kind: Kind::E, suspend: 0 },
         FnDesc { name: "a_rather_long_function_name_for_a_cacheable_lookup", cacheable: false, kind: Kind::V, suspend: 0 },
+        // declares itself cacheable or not depending on a switch that the harness flips between evaluations
+        FnDesc { name: "tg", cacheable: true, kind: Kind::Tag, suspend: 0 },
     ]
+}
+
+fn descs_toggled(on: bool) -> Vec<FnDesc> {
+    let mut d = descs();
+    for f in d.iter_mut().filter(|f| f.name.starts_with("tg")) {
+        f.cacheable = on;
+    }
+    d
 }
 
 /// look-alike arguments: equal, or distinct-but-similar
@@ -110,8 +120,13 @@ fn to_rules(calls: &[Call], cuts: &[usize], a: &[Value]) -> Vec<(String, Expr)> 
 fn judge(ctx: &mut Ctx, calls: &[Call], cuts: &[usize], plan: FaultPlan, family: &str) {
     let a = args();
     let rules = to_rules(calls, cuts, &a);
-    let fx: Fixture = build(&descs(), &BTreeMap::new(), &rules, plan);
+    // the switch of the "tg" function: one value while the ruleset is built and during evaluations 1 and 4, the other during 2, 3 and 5
+    let toggles = calls.iter().any(|c| c.func.starts_with("tg") || c.inner.map(|i| i.starts_with("tg")).unwrap_or(false));
+    let start = calls.len() % 2 == 0;
+    crate::instr::TOGGLE_CACHEABLE.store(start, std::sync::atomic::Ordering::SeqCst);
+    let fx: Fixture = build(&descs_toggled(start), &BTreeMap::new(), &rules, plan);
     let facts = Value::None;
+    let pred_flipped = if toggles { Some(fx.predict_with(&descs_toggled(!start), &facts)) } else { None };
     ctx.begin(|| format!("{family}\t{calls:?} cuts {cuts:?} faults {:?}", fx.plan.faults));
     ctx.count();
     ctx.hit(&format!("family:{family}"));
@@ -126,7 +141,14 @@ fn judge(ctx: &mut Ctx, calls: &[Call], cuts: &[usize], plan: FaultPlan, family:
     }
     ctx.hit(&format!("calls:{}", pred.calls.min(12)));
     // three consecutive evaluations of the same ruleset: each must look like the first
+    let pred_first = pred;
     for round in 1..=5u64 {
+        let flipped = toggles && [2, 3, 5].contains(&round);
+        crate::instr::TOGGLE_CACHEABLE.store(start != flipped, std::sync::atomic::Ordering::SeqCst);
+        let pred = if flipped { pred_flipped.as_ref().unwrap() } else { &pred_first };
+        if flipped {
+            ctx.hit("evaluations-after-the-declared-cacheability-changed");
+        }
         let res = match fx.eval(&facts, round) {
             Ok(r) => r,
             Err(p) => {
@@ -143,7 +165,7 @@ fn judge(ctx: &mut Ctx, calls: &[Call], cuts: &[usize], plan: FaultPlan, family:
             // what kind of function is at the point of divergence, and is this a later evaluation?
             let i = res.log.iter().zip(pred.invocations.iter()).position(|(e, w)| e.func != w.0 || !same(&e.arg, &w.1)).unwrap_or(res.log.len().min(pred.invocations.len()));
             let fname = res.log.get(i).map(|e| e.func.to_string()).or_else(|| pred.invocations.get(i).map(|w| w.0.clone())).unwrap_or_default();
-            let cacheable = descs().iter().find(|d| d.name == fname).map(|d| d.cacheable).unwrap_or(false);
+            let cacheable = descs_toggled(start != flipped).iter().find(|d| d.name == fname).map(|d| d.cacheable).unwrap_or(false);
             let why = if class == "missing-invocation" || class == "different-call" {
                 // the model expected an invocation that did not happen: what made the implementation think it knew the answer?
                 let w = pred.invocations.get(i);
@@ -175,6 +197,7 @@ fn judge(ctx: &mut Ctx, calls: &[Call], cuts: &[usize], plan: FaultPlan, family:
         }
         ctx.hit(&format!("evaluation-round:{round}"));
     }
+    let pred = pred_first;
     ctx.sample(family, || json!({"calls": calls.iter().map(|c| format!("{}({:?})", c.func, arg_value(c, &a))).collect::<Vec<_>>(), "invocations_expected": show_want(&pred.invocations), "cache_hits": pred.cache_hits}));
 }
 
@@ -244,7 +267,7 @@ fn exhaustive(ctx: &mut Ctx, max_len: usize) {
 fn random(ctx: &mut Ctx, n: usize) {
     let mut rng: Rng = ctx.rng.clone();
     let a = args();
-    let fns = ["ca", "cb", "na", "cn", "ce", "nb", "cr", "nr", "dcx", "a_rather_long_function_name_for_a_cacheable_lookup_a", "a_rather_long_function_name_for_a_cacheable_lookup_b", "a_rather_long_function_name_for_a_cacheable_lookup"];
+    let fns = ["ca", "cb", "na", "cn", "ce", "nb", "cr", "nr", "dcx", "a_rather_long_function_name_for_a_cacheable_lookup_a", "a_rather_long_function_name_for_a_cacheable_lookup_b", "a_rather_long_function_name_for_a_cacheable_lookup", "tg", "tg"];
     for _ in 0..n {
         let len = if rng.chance(1, 10) { 13 + rng.below(48) } else { 1 + rng.below(12) };
         // few distinct arguments per history so that repeats are common
@@ -268,10 +291,11 @@ fn random(ctx: &mut Ctx, n: usize) {
 }
 
 /// long histories: many distinct arguments (a cache that evicts or mis-indexes beyond some size), repeated late
-fn long_histories(ctx: &mut Ctx, n: usize) {
+fn long_histories(ctx: &mut Ctx, n: usize, n_huge: usize) {
     let mut rng: Rng = ctx.rng.clone();
-    for _ in 0..n {
-        let distinct = if rng.chance(1, 5) { 300 + rng.below(1200) } else { 20 + rng.below(200) };
+    for k in 0..n + n_huge {
+        let huge = k < n_huge;
+        let distinct = if huge { 4_500 + rng.below(8_000) } else if rng.chance(1, 5) { 300 + rng.below(1200) } else { 20 + rng.below(200) };
         let mut calls: Vec<Call> = vec![];
         // the argument table for this history: integers 1000.. are appended to the shared pool on the fly through `arg` indices
         // (indices beyond the pool are mapped to Int(index) in call_expr_long)
@@ -281,20 +305,20 @@ fn long_histories(ctx: &mut Ctx, n: usize) {
         // second pass in a different order: every one of these must be a cache hit
         let mut order: Vec<usize> = (0..distinct).collect();
         rng.shuffle(&mut order);
-        for i in order.into_iter().take(40) {
+        for i in order.into_iter().take(if huge { 400 } else { 40 }) {
             calls.push(Call { func: if i % 7 == 3 { "cb" } else { "ca" }, arg: 1000 + i, inner: None });
         }
         let nrules = 1 + rng.below(4);
         let mut cuts: Vec<usize> = (0..nrules - 1).map(|_| 1 + rng.below(calls.len() - 1)).collect();
         cuts.sort();
         cuts.dedup();
-        judge(ctx, &calls, &cuts, FaultPlan::default(), "long-histories");
+        judge(ctx, &calls, &cuts, FaultPlan::default(), if huge { "histories-with-thousands-of-distinct-arguments" } else { "long-histories" });
     }
     ctx.rng = rng;
 }
 
 fn run(ctx: &mut Ctx) {
-    long_histories(ctx, ctx.tier.of(30, 300));
+    long_histories(ctx, ctx.tier.of(30, 300), ctx.tier.of(1, 4));
     exhaustive(ctx, ctx.tier.of(3, 4));
     random(ctx, ctx.tier.of(60_000, 600_000));
 }
@@ -310,9 +334,12 @@ fn finish(m: &Merged, tier: Tier) -> Finish {
     f.floors.push(floor(format!("predicted cache hits: {}", m.c("cache-hits-predicted")), m.c("cache-hits-predicted") >= 10_000));
     f.floors.push(floor(format!("histories with failing invocations: {}", m.c("histories-with-failures")), m.c("histories-with-failures") >= 5_000));
     f.floors.push(floor(format!("fifth consecutive evaluations checked: {}", m.c("evaluation-round:5")), m.c("evaluation-round:5") >= tier.of(20_000, 200_000)));
+    f.floors.push(floor(format!("evaluations after a function's declared cacheability changed: {}", m.c("evaluations-after-the-declared-cacheability-changed")), m.c("evaluations-after-the-declared-cacheability-changed") >= tier.of(20_000, 200_000)));
+    f.floors.push(floor(format!("histories with more than 4500 distinct arguments: {}", m.c("family:histories-with-thousands-of-distinct-arguments")), m.c("family:histories-with-thousands-of-distinct-arguments") >= 16));
     f.extras.insert("histories_distinct".into(), json!(m.distinct_nontrivial));
     f.extras.insert("calls_per_history".into(), json!(m.prefix_map("calls:")));
     f.extras.insert("families".into(), json!(m.prefix_map("family:")));
-    f.assumptions = vec!["'distinct argument' is structural identity (Float by bit pattern, Decimal by value and scale); arguments that are equal but differently rendered (d1.0 / d1.00) and NaN payloads are not generated, the statement does not fix them".into()];
+    f.assumptions = vec!["'distinct argument' is structural identity (Float by bit pattern, Decimal by value and scale); arguments that are equal but differently rendered (d1.0 / d1.00) and NaN payloads are not generated, the statement does not fix them".into(),
+        "'declares itself non-cacheable' is read in the present tense: what cacheable() answers during the evaluation in which the call is made. The switch of the toggling function is flipped only between evaluations (never while one is running), so the answer is the same from before the evaluation starts until after it ends".into()];
     f
 }
